@@ -8,6 +8,7 @@ import (
 	"strings"
 	"time"
 	"unicode"
+	"unicode/utf8"
 
 	"github.com/dlclark/regexp2/v2"
 	"github.com/dlclark/regexp2/v2/syntax"
@@ -43,8 +44,50 @@ var accelShapes = []string{
 	`\bab`, `\Bab`, `a{3}`, `a{2,}b`, `(?:ab){2}`, `(?:ab*){2}`, `(ab*)+c`, `[a-c]{2}d`, `é+a`, `a😀b`,
 }
 
+// shapes that need their own alphabet (astral runes, surrogates in rune slices, multi-byte literals sharing a lead byte)
+var accelWideShapes = []struct {
+	pat   string
+	alpha []rune
+}{
+	{`[^\x{10000}]`, []rune{'a', 0xfffe, 0xffff, 0x10000, 0x10001, 0x10ffff}},
+	{`a[^\x{10000}]`, []rune{'a', 0xffff, 0x10000, 0x10001}},
+	{`[^\x{ffff}]b`, []rune{'b', 0xfffe, 0xffff, 0x10000, 0x10001}},
+	{`[^\x{10ffff}]`, []rune{'a', 0x10fffe, 0x10ffff, 0}},
+	{`[^\x00]a`, []rune{'a', 0, 1, 0x10ffff}},
+	{`[xy]\x{D800}a`, []rune{'x', 'y', 'a', 0xd800, 0xfffd, 'b'}},
+	{`ab\x{DFFF}`, []rune{'a', 'b', 0xdfff, 0xfffd}},
+	{`[^ÃÂ]*(?:éx|èy)`, []rune{'a', 'x', 'y', 'é', 'è', 'Ã', 'Â'}},
+	{`[^ÃÂ]*(?:(é)|(è))`, []rune{'a', 'é', 'è', 'Ã', 'Â', 'ê'}},
+	{`[^x]*(?:€a|₭b)`, []rune{'a', 'b', 'x', '€', '₭', '₮'}},
+	{`\w*(?:é|è)x`, []rune{'a', 'x', 'é', 'è', 'Ã', ' '}},
+	{`(?:éx|èy)z`, []rune{'x', 'y', 'z', 'é', 'è', 'Ã'}},
+	{`(?i)ǅa`, []rune{'a', 'A', 'ǅ', 'ǆ', 'Ǆ'}},
+	{`(?i)Ⅰb`, []rune{'b', 'B', 'Ⅰ', 'ⅰ'}},
+}
+
+// string-valued facts (LeadingPrefix, LeadingPrefixes, FixedDistanceLiteral.S, LiteralAfterLoop.String) are Go strings and
+// cannot hold a lone surrogate: they are compared with the text in string space, i.e. after the conversion string(runes)
+// that replaces every invalid rune by U+FFFD (that the RUNNER handles such runes correctly is C03's business: c03-accel)
+func strView(rs []rune) []rune {
+	out := make([]rune, len(rs))
+	for i, r := range rs {
+		if !utf8.ValidRune(r) {
+			r = utf8.RuneError
+		}
+		out[i] = r
+	}
+	return out
+}
+
 func shapePatterns(r *Rng) []patCase {
 	var out []patCase
+	for _, w := range accelWideShapes {
+		for _, rtl := range []bool{false, true} {
+			for _, cg := range []bool{false, true} {
+				out = append(out, patCase{pat: w.pat, o: Opts{RTL: rtl}, alpha: w.alpha, cg: cg})
+			}
+		}
+	}
 	for _, s := range accelShapes {
 		for _, rtl := range []bool{false, true} {
 			for _, cg := range []bool{false, true} {
@@ -458,13 +501,13 @@ func legFacts(c *Ctx) {
 						}
 						pr = rev
 					}
-					chk("LeadingPrefix", true, hasPrefixFold(ahead, pr, ci))
+					chk("LeadingPrefix", true, hasPrefixFold(strView(ahead), pr, ci))
 				}
 				if len(fo.LeadingPrefixes) > 0 {
 					ok := false
 					ci := fo.FindMode == syntax.LeadingStrings_OrdinalIgnoreCase_LeftToRight
 					for _, s := range fo.LeadingPrefixes {
-						if hasPrefixFold(ahead, []rune(s), ci) {
+						if hasPrefixFold(strView(ahead), []rune(s), ci) {
 							ok = true
 						}
 					}
@@ -475,7 +518,7 @@ func legFacts(c *Ctx) {
 				case syntax.FixedDistanceChar_LeftToRight:
 					chk("FixedDistanceChar", true, fl.Distance < len(ahead) && ahead[fl.Distance] == fl.C)
 				case syntax.FixedDistanceString_LeftToRight:
-					chk("FixedDistanceString", true, fl.Distance <= len(ahead) && hasPrefixFold(ahead[fl.Distance:], []rune(fl.S), false))
+					chk("FixedDistanceString", true, fl.Distance <= len(ahead) && hasPrefixFold(strView(ahead[fl.Distance:]), []rune(fl.S), false))
 				case syntax.LeadingChar_RightToLeft:
 					chk("LeadingChar_RightToLeft", true, len(ahead) > 0 && ahead[0] == fl.C)
 				}
@@ -496,7 +539,7 @@ func legFacts(c *Ctx) {
 						rest := ahead[k:]
 						switch {
 						case lal.String != "":
-							if hasPrefixFold(rest, []rune(lal.String), lal.StringIgnoreCase) {
+							if hasPrefixFold(strView(rest), []rune(lal.String), lal.StringIgnoreCase) {
 								ok = true
 							}
 						case len(lal.Chars) > 0:
